@@ -192,11 +192,16 @@ Definition detect_format (inp : bytes) : option sformat :=
   | _, _ => None
   end.
 
-Inductive ferr := FInvalidFormat | FNpyErr (e : rerr) | FTextErr (e : terr).
-(* read::Builder::read after read_to_end *)
+Inductive ferr := FInvalidFormat | FNpyErr (e : rerr) | FTextErr (e : terr) | FZeroAxis.
+(* read::Builder::read after read_to_end (repaired: a spectrum with an axis of length zero is rejected here, before
+   fold / stat / view can trip over it) *)
 Definition read_spectrum (inp : bytes) : (list N * list N) + ferr :=
-  match detect_format inp with
-  | None => inr FInvalidFormat
-  | Some FNpy => match read_npy inp with inl r => inl r | inr e => inr (FNpyErr e) end
-  | Some FText => match read_text inp with inl r => inl r | inr e => inr (FTextErr e) end
+  let r := match detect_format inp with
+           | None => inr FInvalidFormat
+           | Some FNpy => match read_npy inp with inl r => inl r | inr e => inr (FNpyErr e) end
+           | Some FText => match read_text inp with inl r => inl r | inr e => inr (FTextErr e) end
+           end in
+  match r with
+  | inl (sh, vals) => if existsb (N.eqb 0) sh then inr FZeroAxis else inl (sh, vals)
+  | inr e => inr e
   end.
